@@ -339,23 +339,43 @@ def _is_object_check(ctx, f):
 
 
 def r_rej_meta(ctx):
-    """R-REJ-META: the object check itself: Ok only with the Value::Object payload, Err otherwise"""
+    """R-REJ-META: every metadata reader (a function that parses JSON) returns, on success, the payload of a value it has found to be a
+    `Value::Object` — whether the test is written in the reader itself or in a helper evaluated in place — and has an error exit of its own for
+    the other kinds"""
     obs = []
-    cands = []
-    for f in ctx.user_fns():
-        for n in walk(f["body"]):
-            if n["k"] in ("Let", "LetCond") and _pat_has_ctor(n.get("pat"), "serde_json::value::Value::Object"):
-                cands.append(f)
-                break
-            if n["k"] == "Match" and any(_pat_has_ctor(a["pat"], "serde_json::value::Value::Object") for a in n["arms"]):
-                cands.append(f)
-                break
-    if not cands:
-        return no_anchor("R-REJ-META", "metadata object check (pattern serde_json::Value::Object)")
-    for f in cands:
-        obs.append(Ob("R-REJ-META", f["path"], "Ok only with the Value::Object payload", _is_object_check(ctx, f),
-                      "paths: %s" % ", ".join("%s→%s" % (p.exit, tstr(unmut(p.value))[:60]) for p in ctx.fa(f).paths), rel(f["loc"])))
-    return obs + r_parse_meta_end(ctx)
+    parsers = [f for f in ctx.user_fns() if any(c["fn"] in ("serde_json::de::from_reader", "serde_json::de::from_slice", "serde_json::de::from_str") for c in calls(f["body"]))]
+    if not parsers:
+        return no_anchor("R-REJ-META", "metadata reader (function calling serde_json::from_*)")
+    for f in parsers:
+        fa = ctx.fa(f)
+        n_ok = 0
+        own_err = False
+        for p in fa.paths:
+            js = [e for e in p.events if e.kind == "call" and e.d["fn"].startswith("serde_json::de::from_")]
+            if p.exit == "err" and js and not (isinstance(p.value, tuple) and p.value and p.value[0] == "errprop" and _is_try_of(p, js[-1])):
+                own_err = own_err or any(fct[0] == "variant" and fct[2] == "serde_json::value::Value::Object" and fct[3] is False for fct, _d in path_facts(p)) or \
+                    any(d.d["how"] == "match" and d.seq > js[-1].seq for d in p.decisions())
+            if p.exit not in ("ok", "tail"):
+                continue
+            n_ok += 1
+            v = unmut(p.value)
+            if is_call_to(v, lambda x: x == "core::result::Result::Ok") and v[2]:
+                v = unmut(v[2][0])
+            J = unmut(js[-1].d["ret"]) if js else None
+            good = False
+            if J is not None:
+                known = any(fct[0] == "variant" and fct[2] == "serde_json::value::Value::Object" and fct[3] is True and unmut(fct[1]) == J for fct, _d in path_facts(p))
+                good = known and v == ("proj", J, "Value::Object.0")
+            obs.append(Ob("R-REJ-META", f["path"], "Ok only with the Value::Object payload of the parsed document", good,
+                          "returns %s" % tstr(v)[:120], rel(f["loc"])))
+        obs.append(Ob("R-REJ-META", f["path"], "a parsed document of another kind is an error", own_err and n_ok > 0, "own error exit after the parse: %s" % own_err, rel(f["loc"])))
+    return obs
+
+
+def _is_try_of(p, ev):
+    """the path ended by propagating the failure of event `ev` itself (`from_reader(..)?`)"""
+    v = p.value[1] if isinstance(p.value, tuple) and len(p.value) > 1 else None
+    return v is not None and unmut(v) == unmut(ev.d["ret"])
 
 
 # ------------------------------------------------------------------------------------------------
